@@ -189,3 +189,7 @@ def check(ctx):
             ctx.add(f"4.status-{s['rv']['variant']}-reports-charged-values", "PROV", okk, "the status reports the gas and fee that were charged",
                     sites=[str(s.get("line"))], site_key=s["rv"]["variant"])
         ctx.only_callers("4.update-callers", f"{EX}::update_execution_data", [f"{EX}::execute_chargeable_transaction"], CR)
+
+    # -- the fee of a transaction enters the block totals (and so the mint amount) only once the transaction is definitely included --
+    from exec_common import totals_updated_last
+    totals_updated_last(ctx, "7")
